@@ -81,8 +81,30 @@ def bishopDirs : List (Int × Int) := [(-1, 1), (1, 1), (-1, -1), (1, -1)]
 def rookReach (occ : Sq → Bool) (s : Sq) : List Sq := rookDirs.flatMap (fun d => slide occ d.1 d.2 7 s)
 def bishopReach (occ : Sq → Bool) (s : Sq) : List Sq := bishopDirs.flatMap (fun d => slide occ d.1 d.2 7 s)
 
+/-- all squares from `s` (exclusive) in direction `(df, dr)` up to the edge of the board -/
+def walk (df dr : Int) : Nat → Sq → List Sq
+  | 0, _ => []
+  | n + 1, s => match step s df dr with
+    | none => []
+    | some t => t :: walk df dr n t
+
+/-- the squares strictly between two aligned squares, found by walking from `a` towards `b`;
+empty when the squares are not aligned (or equal, or adjacent) -/
+def betweenList (a b : Sq) : List Sq :=
+  if aligned a b then (walk (sgn (dF a b)) (sgn (dR a b)) 7 a).takeWhile (· != b) else []
+
+/-- the whole line through two aligned squares (both included); empty when they are not aligned -/
+def lineList (a b : Sq) : List Sq :=
+  if aligned a b then
+    a :: (walk (sgn (dF a b)) (sgn (dR a b)) 7 a ++ walk (-sgn (dF a b)) (-sgn (dR a b)) 7 a)
+  else []
+
+/-- empty-board rook / bishop rays -/
+def rookRayList (s : Sq) : List Sq := rookDirs.flatMap (fun d => walk d.1 d.2 7 s)
+def bishopRayList (s : Sq) : List Sq := bishopDirs.flatMap (fun d => walk d.1 d.2 7 s)
+
 /-- the word with exactly the listed squares set (only used to compare with table entries) -/
-def bbOfList (l : List Sq) : BB := l.foldl (fun b s => b ||| BitVec.twoPow 64 s.val) 0#64
+def bbOfList (l : List Sq) : BB := BB.ofList l
 /-- the word of a predicate -/
 def bbOfPred (p : Sq → Bool) : BB := bbOfList ((List.finRange 64).filter p)
 
